@@ -477,3 +477,25 @@ pub fn lookalike_case(rng: &mut Rng) -> String {
     ][rng.below(28)];
     t.replace("{d}", d).replace("{l}", l).replace("{b}", b)
 }
+
+/// Quoted identifiers, literals and raw strings made of \uXXXX escapes around the surrogate
+/// range in every order (lone, reversed, high followed by a non-surrogate, doubled).
+pub fn surrogate_case(rng: &mut Rng) -> String {
+    const UNITS: [&str; 12] = ["\\ud800", "\\udbff", "\\udc00", "\\udfff", "\\u0041", "\\u0000", "\\uffff", "\\ud7ff", "\\ue000", "\\ud83d", "\\ude00", "\\uD83D"];
+    let n = 1 + rng.below(4);
+    let mut body = String::new();
+    for _ in 0..n {
+        body.push_str(UNITS[rng.below(UNITS.len())]);
+        if rng.chance(1, 5) {
+            body.push_str(["a", "é", "\\\\", "\\n", " "][rng.below(5)]);
+        }
+    }
+    let tok = match rng.below(5) {
+        0 | 1 => format!("\"{}\"", body),
+        2 => format!("`\"{}\"`", body),
+        3 => format!("`[\"{}\", {{\"{}\": 1}}]`", body, body),
+        _ => format!("'{}'", body),
+    };
+    let frames = ["{}", "a.{}", "{} | b", "[{}]", "{{k: {}}}", "a[?{} == b]"];
+    frames[rng.below(frames.len())].replacen("{}", &tok, 1).replace("{{", "{").replace("}}", "}")
+}
